@@ -205,6 +205,10 @@ func c18Ops(thorough bool) []c18Op {
 		{Name: "PutObject aws-chunked with signed chunks", Stream: true, Req: func(map[string]string) *gw.Req {
 			return NewReq("PUT", gw.ObjPath(c18B, "k1"), "", H("x-amz-meta-color", "Chunked"), []byte("streamed in three chunks"))
 		}},
+		{Name: "PutObject declaring fewer decoded bytes than it delivers", Req: func(map[string]string) *gw.Req {
+			body := []byte("fifty-six bytes are delivered but only ten are declared.")
+			return NewReq("PUT", gw.ObjPath(c18B, "k1"), "", H("x-amz-decoded-content-length", "10", "x-amz-checksum-crc32", gw.Checksum("crc32", body[:10])), body)
+		}},
 		{Name: "PutObject with tagging header", Req: func(map[string]string) *gw.Req {
 			return NewReq("PUT", gw.ObjPath(c18B, "k3"), "", H("x-amz-tagging", "t1=v1&t2=v2"), []byte("tagged"))
 		}},
@@ -465,7 +469,7 @@ func C18(r *ck.Run) {
 	if r.Thorough() {
 		depth = 3
 	}
-	r.Rule(fmt.Sprintf("every program of length <= %d over 37 (41 thorough) bucket, object, tagging, policy, listing and multipart operations (four of them signed with a wrong secret, one with a checksum that is not the body's, one completion that states object size 0) is executed twice from an empty store: through a gateway whose backend is s3proxy pointed at an endpoint process (a posix versitygw on loopback TCP), and against that endpoint directly; after every step 30 read requests (ListBuckets, GET whole / ranges, HEAD, attributes, tagging, listings v1/v2 with prefix / delimiter / max-keys, uploads, parts, bucket tagging / policy / ACL / versioning) are issued on both sides and every response (status, error code, content headers, user metadata, ETag, body with timestamps and ids masked) must be equal; callers: root and a userplus account that owns the bucket; distinct = (caller, program)", depth))
+	r.Rule(fmt.Sprintf("every program of length <= %d over 38 (42 thorough) bucket, object, tagging, policy, listing and multipart operations (four of them signed with a wrong secret, one with a checksum that is not the body's, one completion that states object size 0) is executed twice from an empty store: through a gateway whose backend is s3proxy pointed at an endpoint process (a posix versitygw on loopback TCP), and against that endpoint directly; after every step 30 read requests (ListBuckets, GET whole / ranges, HEAD, attributes, tagging, listings v1/v2 with prefix / delimiter / max-keys, uploads, parts, bucket tagging / policy / ACL / versioning) are issued on both sides and every response (status, error code, content headers, user metadata, ETag, body with timestamps and ids masked) must be equal; callers: root and a userplus account that owns the bucket; distinct = (caller, program)", depth))
 	r.Assume("the 'other S3 endpoint' is versitygw itself (posix backend) in a child process; error documents are compared by status and code only")
 	ops := c18Ops(r.Thorough())
 	var progs [][]int
